@@ -21,6 +21,7 @@
   column — and `gridMin ≤ gridMax` (implied by the decidable `MC.wfShape`: `*_of_wf` corollaries).  Not needed:
   `noTinyVariance` (zncc), census window ∈ {3, 5}, any bound on the interval (`inDomain`), `valid_pixels ≠ no_data_mask`.
 -/
+import PandoraModel.Model.PipelineRun
 import PandoraModel.Properties.C04
 import PandoraModel.Properties.C02Zncc
 
@@ -28,30 +29,6 @@ namespace Pandora.C04C02
 open Pandora
 
 /-! ### the adapter between the two input representations -/
-
-/-- class of a mask cell as `criteria.py` tests it: `== no_data_mask` first (that is what the dilation reads),
-    then `== valid_pixels`, anything else is "invalid" -/
-def clsOf (m : MC.Mask) (r c : Nat) : Criteria.Cls :=
-  if m.code (r : Int) (c : Int) = m.nodata then .nodata
-  else if m.code (r : Int) (c : Int) = m.valid then .valid
-  else .invalid
-
-/-- a matching-cost input as an input of the criteria model: same image size, `offset = (w − 1) / 2`, the global
-    interval `[gridMin, gridMax]` of the `disp` coordinate, the two masks classified, the per-pixel grids -/
-def toCv (x : MC.Input) : Criteria.CvInput where
-  rows := x.L.rows
-  cols := x.L.cols
-  off := MC.half x.w
-  col0 := 0
-  dmin := MC.gridMin x.dminG x.L.rows x.L.cols
-  dmax := MC.gridMax x.dmaxG x.L.rows x.L.cols
-  hasL := x.mL.present
-  mL := clsOf x.mL
-  hasR := x.mR.present
-  mR := clsOf x.mR
-  subpix := x.sp
-  pixMin := fun r c => x.dminG r c
-  pixMax := fun r c => x.dmaxG r c
 
 theorem clsOf_nodata_iff (m : MC.Mask) (r c : Nat) : clsOf m r c = .nodata ↔ m.code (r : Int) (c : Int) = m.nodata := by
   unfold clsOf
@@ -294,16 +271,6 @@ theorem nan_iff_not_computable_of_wf (x : MC.Input) (hwf : MC.wfShape x = true) 
   nan_iff_not_computable x (C02.shape_of_wf x hwf) (C02.gridOK_of_wf x hwf) r c j hj
 
 /-! ### composition: the criteria model fed with the matching-cost model -/
-
-/-- "every cost of the pixel is NaN", read off the matching-cost model -/
-def mcAllNan (x : MC.Input) (r c : Nat) : Bool :=
-  (List.range (MC.nDisp (MC.gridMin x.dminG x.L.rows x.L.cols) (MC.gridMax x.dmaxG x.L.rows x.L.cols) x.sp)).all
-    fun j => (MC.costVolume x (r : Int) (c : Int) j).isNan
-
-/-- the validity mask after `matching_cost`: `criteria.py` (model of C04) with the all-NaN indicator of the
-    cost volume computed by the matching-cost model of C02 -/
-def composedMask (x : MC.Input) (r c : Nat) : Nat :=
-  Criteria.finalMask (toCv x).toInput (mcAllNan x) r c
 
 theorem mcAllNan_iff (x : MC.Input) (r c : Nat) :
     mcAllNan x r c = true ↔
